@@ -9,6 +9,7 @@ from typing import Any, Dict, Optional
 from xml.sax.saxutils import quoteattr
 
 import jinja2
+import markupsafe
 
 import odxtools
 
@@ -38,6 +39,20 @@ def get_parent_container_name(dl_short_name: str) -> str:
 
     raise RuntimeError(f"get_parent_container_name() could not determine a "
                        f"container for diagnostic layer '{dl_short_name}'.")
+
+
+def escape_xml_text(value: Any) -> markupsafe.Markup:
+    """Escape the content of an XML element
+
+    In addition to what the `escape` filter of jinja does, line breaks
+    are written as character references: the templates indent whole
+    blocks of XML, i.e., the indentation would otherwise become part
+    of any text that spans multiple lines (and carriage returns
+    would be normalized to line feeds by XML parsers).
+    """
+    result = str(markupsafe.escape(value))
+    result = result.replace("\r", "&#13;").replace("\n", "&#10;")
+    return markupsafe.Markup(result)
 
 
 def make_xml_attrib(attrib_name: str, attrib_val: Optional[Any]) -> str:
@@ -141,6 +156,8 @@ def write_pdx_file(
                 out_file.write(data_file.read())
 
         jinja_env = jinja2.Environment(loader=jinja2.FileSystemLoader(templates_dir))
+        jinja_env.filters["e"] = escape_xml_text
+        jinja_env.filters["escape"] = escape_xml_text
         jinja_env.globals["getattr"] = getattr
         jinja_env.globals["hasattr"] = hasattr
         jinja_env.globals["odxraise"] = jinja2_odxraise_helper
